@@ -156,7 +156,7 @@ static Val do_load(State &s, const Val &p, unsigned bits, bool want_ptr)
   if (sp.ok)
   {
     z3::expr cat = support_cat(sp);
-    std::vector<uint64_t> as = feasible_values(s, cat, 70000);
+    std::vector<uint64_t> as = feasible_assignments(s, sp);
     std::map<uint64_t, std::vector<uint64_t>> byoff;
     for (uint64_t a : as) byoff[eval_under(sp, *p.e, a)].push_back(a);
     if (byoff.size() > MAX_SYM_TARGETS) die("symbolic load offset with more than %u targets in %s", MAX_SYM_TARGETS, o.name.c_str());
@@ -200,6 +200,7 @@ static Val do_load(State &s, const Val &p, unsigned bits, bool want_ptr)
       else it->second = it->second || cv.first;
     }
     ForkReq fr; for (auto &k : order) fr.alts.push_back(groups.at(k).simplify());
+    fr.prechecked = true;      // every group contains an assignment the solver produced: feasible by construction
     throw fr;
   }
   Val acc = vals[0].second;
